@@ -179,7 +179,7 @@ MANIFEST = {
                   'ordering, best-n selection, reported threshold and simulation counts are SMT validity queries on every path '
                   'of the exhaustively explored decision tree.',
     'level_note': 'batch_size<=2 (3 thorough), n_samples<=3, <=2..3 consumed batches (4 in one threshold harness); exact reals + '
-                  '+inf, no NaN; node operations uninterpreted (fresh values); native client; region with fewer than n finite '
+                  '+inf, no NaN; node operations uninterpreted (fresh values); native client; also a second run on a sampler object that finished another run; region with fewer than n finite '
                   'admissible draws is excluded from the main claim and reported as known finding C01/inf-tie-placeholder. '
                   'z3 trusted.',
 }
